@@ -503,6 +503,9 @@ func c15RandReq(r *h.Rand, rid, conn int, server bool) c15Req {
 			case 3:
 				a.S = c15Val(rid, cnt)
 				cnt++
+				if r.Chance(1, 5) {
+					a.S = "" // a handler may store the empty identifier: later items then see none
+				}
 			case 5:
 				a.S = "+"
 			case 2:
